@@ -13,7 +13,7 @@ if [ "$1" = "--one" ]; then
   vd=$(mktemp -d /tmp/mutv.XXXXXX); cp known_findings.json $vd/
   hits=""; ownhit=no
   for p in $props; do
-    out=$(/verif/bin/argverif -repo $scratch -verif $vd -property $p 2>&1)
+    out=$(${ARGVERIF:-/verif/bin/argverif} -repo $scratch -verif $vd -property $p 2>&1)
     rules=$(echo "$out" | grep -oE "rule=[A-Z0-9-]+" | sort -u | sed 's/rule=//' | tr '\n' ',' )
     if [ -n "$rules" ]; then hits="$hits $p[${rules%,}]"; [ "$p" = "$own" ] && ownhit=yes; fi
   done
